@@ -67,7 +67,8 @@ def _the_cf():
 
 
 class Run:
-    def __init__(self):
+    def __init__(self, cf=None):
+        self.gate = None        # optional hook called inside link.send_packet before the packet counts as transmitted
         import cflib.crazyflie as cfmod
         import cflib.crtp
         from cflib.crtp.crtpdriver import CRTPDriver
@@ -99,11 +100,14 @@ class Run:
 
             def send_packet(self, pk):
                 rid = run.pk_rid.get(id(pk))
+                t0 = run.now
+                if run.gate is not None:
+                    run.gate(pk, rid)           # may block (a blocking driver) or raise (a failing driver)
                 cur = run.cf.link is self
-                run.tx.append({'sess': self.session, 'rid': rid, 't': run.now, 'closed': self.closed, 'current': cur,
+                run.tx.append({'sess': self.session, 'rid': rid, 't': t0, 'closed': self.closed, 'current': cur,
                                'ev': run.ev_index})
                 if rid is not None:
-                    run.out.append([self.session, rid, run.now])
+                    run.out.append([self.session, rid, t0])
 
             def receive_packet(self, wait=0):
                 if run.inbox:
@@ -117,7 +121,7 @@ class Run:
         self.saved = (cfmod.Timer, list(cflib.crtp.CLASSES))
         cfmod.Timer = lambda interval, function: VTimer(run, interval, function)
         cflib.crtp.CLASSES[:] = [FakeLink]
-        self.cf = _the_cf()
+        self.cf = cf if cf is not None else _the_cf()
         if self.cf.link is not None:
             self.cf.close_link()
 
